@@ -254,7 +254,8 @@ def replay(ctx, path):
     with C.Lock():
         T, _ = C.translate_all(ctx)
         C.build_harness(ctx, bins=("impl",))
-    a, b = C.run_impl(ctx, [req])[0], C.run_driver(ctx, [req])[0]
+    hist = (r.get("witness") or {}).get("history") or []     # requests answered before it by the same process
+    a, b = C.run_impl(ctx, hist + [req])[-1], C.run_driver(ctx, hist + [req])[-1]
     canon = srdebug.Canon(T)
     print("request:", req[:200]); print("implementation:", a[:600])
     try:
